@@ -638,7 +638,14 @@ impl<H: Hooks> Gen<H> {
             let cmd = match op {
                 "new" if can_alloc => format!("new {}", self.fresh_v()),
                 "appv" if can_alloc => match self.one_arg(&v, op) {
-                    Some(h) => format!("appv {} {}", h, self.fresh_v()),
+                    Some(h) => {
+                        let pv = self.fresh_v();
+                        // C03: append_value(v) must leave the arena equal to new_node(v) followed by append
+                        if self.rng.chance(0.5) {
+                            self.emit(&format!("qav {} {}", h, pv))?;
+                        }
+                        format!("appv {} {}", h, pv)
+                    }
                     None => continue,
                 },
                 "det" | "rem" | "rst" => match self.one_arg(&v, op) {
